@@ -1,1 +1,2 @@
 import CmGen.NamedColors
+import CmGen.Templates
